@@ -627,6 +627,16 @@ func (s *Store) jsonPatch(k Key, ki KindInfo, patch []byte, dry bool) (map[strin
 	if err != nil {
 		return nil, apierrors.NewBadRequest(err.Error())
 	}
+	// a "replace /metadata/resourceVersion" operation is how a JSON patch carries the optimistic lock (csaupgrade does so)
+	var ops []map[string]any
+	_ = json.Unmarshal(patch, &ops)
+	for _, op := range ops {
+		if getStr(op, "path") == "/metadata/resourceVersion" {
+			if v, _ := op["value"].(string); v != getStr(metaOf(old), "resourceVersion") {
+				return nil, conflict(k, "the object has been modified; please apply your changes to the latest version and try again")
+			}
+		}
+	}
 	ob, _ := json.Marshal(old)
 	nb, err := jp.Apply(ob)
 	if err != nil {
